@@ -181,4 +181,12 @@ CHECKS['C12'] = dict(
          'other => SYNTAX_ERROR) x symbol chains of depth 1..3 over every base and 4 reference forms (non-writable base => VALIDATION_ERROR before execution, nothing executed, home unchanged) x 5 ways of giving an '
          'absolute path. Reading: 8 roles x every option and default with the file present only under the documented root.',
     note='KF-C12-ABS (absolute FILE-NAME escapes the relativity; also in the repository\'s doc/BUGS.rst) is a recorded known finding matched by predicate + defect model; reading roles may be more liberal than their help page lists.')
+CHECKS['C18'] = dict(
+    level='exploration',
+    technique='exhaustive single-mutation neighbourhood (token deletion / duplication / transposition / replacement by 48 troublesome tokens, truncation at every character, quote imbalance, self-reference) of a seed corpus with every instruction and type form, run through the real CLI with virtual processes',
+    text='~130 valid seed lines (every instruction of every phase, every form of every type, definitions and applied forms) each checked to pass, then every single mutation (~51 000 cases, quick; thorough adds all pairs of '
+         'replacements from a reduced set): execute must return, exit code in {0,32,33,65,128}, stdout exactly one identifier consistent with it, never INTERNAL_ERROR / traceback / escaping exception / endless wait; '
+         'exit 65 names the source. Plus header mutations and raw files (empty, NUL bytes, BOM, CR LF, 100 kB line, thousands of blank lines).',
+    note='The property quantifies over every UTF-8 text; what is decided is the complete 1- (thorough: partial 2-) mutation neighbourhood of the corpus. Found and repaired KF-C18-INT and KF-C18-REPL (fix: commits); '
+         'KF-C18-NAMETOOLONG is a recorded known finding matched by predicate + defect model. Unbounded-cost inputs (9**9**9) are not generated.')
 NOT_APPLICABLE = {}
